@@ -123,7 +123,7 @@ def plan(tier, seed):
 def minimums(tier):
     return {"hexdump.calls": 5000, "hexdump.default_layout_roundtrips": 2000, "parse.format_checks": 6000,
             "parse.short_last_line": 1500, "parse.with_comments": 800, "cli.hex_checked": 40, "layouts.checked": 400, "parse.beyond_64k": 20,
-            "parse.dump_file_checks": 500, "parse.lines_as_generator": 500, "parse.lines_as_file": 300, "parse.lines_as_tuple": 500}
+            "parse.dump_file_checks": 500, "parse.lines_as_generator": 500, "parse.lines_as_file": 300, "parse.lines_as_tuple": 500, "parse.dump_file_hexlike_heading": 60}
 
 
 def finish(m, tier):
@@ -224,6 +224,12 @@ def run(spec, ctx):
                 dump.parse_dump_data = lambda data, h, s_: captured.append(bytes(data)) or []
                 path = os.path.join(harness.scratch_root(), "c13_dump.txt")
                 pre = [rng.choice(comments) for _ in range(rng.choice([0, 1, 3, 15, 16, 17, 40]))]
+                if name == "bmc" and rng.random() < 0.4:
+                    # heading lines that begin like a line of the OTHER format (two hex digits and a blank): in a BMC-format
+                    # file they are still headings
+                    pre.insert(rng.randrange(len(pre) + 1), rng.choice(["02 Oct 2026 10:15:42  drawer dump", "00", "FF 12 data follows",
+                                                                        "1A", "DE AD BE EF"]))
+                    ctx.count("parse.dump_file_hexlike_heading")
                 with open(path, "w") as f:
                     f.write("".join((ln if ln.endswith("\n") else ln + "\n") for ln in pre + list(lines)))
                 try:
